@@ -491,8 +491,8 @@ def c06(X, form, body):
     if k != "ok":
         v = {"kind": "subprocess-rejected", "observed": [k, O.exc_sig(t) if isinstance(t, BaseException) else None], "expected": f"{method}({[w for _, _, w in words]})",
              "source": src}
-        if isinstance(t, SyntaxError) and t.msg == "cannot mix bytes and nonbytes literals" and re.search(r"""['"][bB][rR]?['"]|['"][rR][bB]['"]""", body):
-            v["feature"] = "bytes-prefix-letter-between-quotes"
+        if isinstance(t, SyntaxError) and t.msg == "cannot mix bytes and nonbytes literals" and re.search(r"""(?<![\w])[bB][rR]?['"]|(?<![\w])[rR][bB]['"]|['"][bB][rR]?['"]|['"][rR][bB]['"]""", body):
+            v["feature"] = "bytes-and-str-literals-in-one-subprocess"
         return v
     try:
         call = t.body[0].value
